@@ -13,9 +13,12 @@ pub mod c06;
 pub mod c08;
 pub mod c09;
 pub mod c10;
+pub mod c11;
 pub mod c13;
 pub mod c14;
+pub mod c15;
 pub mod c16;
+pub mod c18;
 pub mod tree;
 
 #[derive(Clone, Copy, Debug, Default)]
@@ -64,9 +67,12 @@ pub fn get(id: &str) -> Option<Box<dyn Check>> {
         "C08" => Some(Box::new(c08::C08)),
         "C09" => Some(Box::new(c09::C09)),
         "C10" => Some(Box::new(c10::C10)),
+        "C11" => Some(Box::new(c11::C11)),
         "C13" => Some(Box::new(c13::C13)),
         "C14" => Some(Box::new(c14::C14)),
+        "C15" => Some(Box::new(c15::C15)),
         "C16" => Some(Box::new(c16::C16)),
+        "C18" => Some(Box::new(c18::C18)),
         _ => None,
     }
 }
